@@ -662,7 +662,7 @@ class CSSStyleSheet(cssutils.stylesheets.StyleSheet):
                     self.insertRule(r, index + i)
                     done.append(r)
             except xml.dom.DOMException:
-                for r in done:
+                for r in reversed(done):
                     self.deleteRule(r)
                 raise
             return index
